@@ -1,0 +1,6 @@
+//go:build !verif
+
+package signaller
+
+// orderSignalIDs is a simulation seam; it does nothing in the shipped build.
+func orderSignalIDs(_ []string) {}
